@@ -434,8 +434,58 @@ func loopInvariant(v ssa.Value, blocks map[*ssa.BasicBlock]bool) bool {
 		return !blocks[x.Block()]
 	case *ssa.BinOp:
 		return loopInvariant(x.X, blocks) && loopInvariant(x.Y, blocks)
+	case *ssa.UnOp:
+		if !blocks[x.Block()] {
+			return true
+		}
+		// a read of a local variable (or of a field of a local struct) that nothing assigns inside the loop
+		if x.Op == token.MUL {
+			var al *ssa.Alloc
+			switch a := x.X.(type) {
+			case *ssa.Alloc:
+				al = a
+			case *ssa.FieldAddr:
+				al, _ = a.X.(*ssa.Alloc)
+			}
+			if al != nil && !writtenInLoop(al, blocks) {
+				return true
+			}
+		}
+		return false
 	case ssa.Instruction:
 		return !blocks[x.Block()]
+	}
+	return false
+}
+
+// writtenInLoop: the local variable (or one of its fields) is assigned inside the loop, or its address is
+// handed to other code.
+func writtenInLoop(al *ssa.Alloc, blocks map[*ssa.BasicBlock]bool) bool {
+	for _, ref := range *al.Referrers() {
+		switch u := ref.(type) {
+		case *ssa.Store:
+			if u.Addr == ssa.Value(al) && blocks[u.Block()] {
+				return true
+			}
+			if u.Val == ssa.Value(al) {
+				return true // address stored somewhere
+			}
+		case *ssa.FieldAddr:
+			for _, r2 := range *u.Referrers() {
+				switch u2 := r2.(type) {
+				case *ssa.Store:
+					if u2.Addr == ssa.Value(u) && blocks[u2.Block()] {
+						return true
+					}
+				case *ssa.UnOp, *ssa.DebugRef:
+				default:
+					return true
+				}
+			}
+		case *ssa.UnOp, *ssa.DebugRef:
+		default:
+			return true // address escapes (call argument, closure capture …)
+		}
 	}
 	return false
 }
